@@ -4,6 +4,7 @@ import (
 	"time"
 
 	"github.com/cnotch/ipchub/av/format/rtp"
+	"github.com/cnotch/ipchub/media/cache"
 	"github.com/cnotch/ipchub/zzverif/symapi"
 	"github.com/cnotch/queue"
 )
@@ -329,6 +330,41 @@ func VerifFanoutWithStalledConsumer() {
 		for k := 0; k < K && k < len(got); k++ {
 			symapi.Assert(got[k] == queue.Elem(sent[k]), "healthy-consumer-order-and-identity")
 		}
+	}
+	symapi.Reach("end")
+}
+
+// VerifJoinBaseCase (C04, base case of the backlog induction): whatever the size of the
+// GOP replayed to a joining consumer (classes up to 1500 packets, around the limit), the
+// consumer starts with exactly the replay queued, not dropping, and with the FIXED backlog
+// limit of 1000 that VerifSendStep's step case assumes.
+func VerifJoinBaseCase() {
+	s := verifStream("/a")
+	s.cache = cache.NewH264Cache(true)
+	mk := func(b0 byte) *rtp.Packet { return &rtp.Packet{Channel: rtp.ChannelVideo, Data: []byte{b0, 1, 2}} }
+	r := []int{0, 1, 3, 499, 500, 501, 999, 1000, 1001, 1500}[symapi.Choose("gopPackets", 10)]
+	s.WriteRtpPacket(mk(0x67))
+	s.WriteRtpPacket(mk(0x68))
+	for i := 0; i < r; i++ {
+		if i == 0 {
+			s.WriteRtpPacket(mk(0x65))
+		} else {
+			s.WriteRtpPacket(mk(0x41))
+		}
+	}
+	flv := symapi.Bool("flv")
+	var cid CID
+	if flv {
+		cid = s.StartConsume(&verifConsumer{}, FLVPacket, "j")
+	} else {
+		cid = s.StartConsume(&verifConsumer{}, RTPPacket, "j")
+	}
+	c := verifConsumption(s, cid)
+	symapi.Assert(c != nil, "joined")
+	symapi.Assert(c.maxQLen == 1000, "backlog-limit-is-the-fixed-1000-after-any-join-replay")
+	symapi.Assert(!c.discarding, "joiner-not-dropping")
+	if !flv {
+		symapi.Assert(c.recvQueue.Len() == r+2, "queue-holds-exactly-the-replay")
 	}
 	symapi.Reach("end")
 }
